@@ -2,13 +2,14 @@
 (* Stage A for X02, the finite tables: one enumeration variable x.
      MC_X02.cfg       x in 0..65535: the laws of PDU session type, ngKSI, 5G-S-TMSI text, hexadecimal
                       text, header octets for EVERY octet / octet pair / (AMF set id, AMF pointer)
-     MC_X02_plmn.cfg  x = 1000 * mcc + mnc: GetPlmnDigit's oracle inverts the PLMN octets of C18 *)
+     MC_X02_plmn.cfg  x = 1000 * mcc + mnc: GetPlmnDigit's oracle inverts the PLMN octets of C18
+                      (11 MCC rows; MC_X02_plmn_all.cfg: all 1 000 000 pairs) *)
 EXTENDS MiscConvert
 CONSTANTS Mccs
 VARIABLE x
-AllMccs == 0..999
 Init == x \in 0..65535
 InitPlmn == x \in {1000 * m + n : m \in Mccs, n \in 0..999}
+InitPlmnAll == x \in 0..999999          \* every MCC 0..999 with every MNC 0..999
 Next == UNCHANGED x
 
 hi == x \div 256
